@@ -9,7 +9,8 @@
    Representation choices of the model (none changes what is computed):
    * the read cursor [i] into the immutable input slice [s] is represented by the suffix
      [&s[i..]]; [i >= s.len()] is "the suffix is empty", [s[i]] is its head, [&s[i..i+n]] its
-     first n elements (panic when shorter);
+     first n elements ([s.get(..)] = None, i.e. the "truncated compressed stream" error, when
+     shorter);
    * the output [res : Vec<u8>] is a record holding the bytes in REVERSED order plus the length
      (a Vec knows its length), so that [push] is a cons and the model stays linear-time after
      extraction; [vec_to_list] gives the bytes in order;
@@ -37,11 +38,18 @@ Definition vec_of (l : list N) : vec := mkvec (rev_append l []) (N.of_nat (lengt
 (* M — decompress_stream                                                                        *)
 (* ------------------------------------------------------------------------------------------ *)
 
-(* utils::read_u16(&s[i..]) : u16::from_le_bytes(s[..2].try_into().unwrap()) *)
+(* error classes of CfbError (never compared as text) *)
+Definition E_SIGNATURE : N := 0.        (* Invalid { name: "signature" } *)
+Definition E_TRUNCATED : N := 1.        (* Io(UnexpectedEof, "truncated compressed stream") *)
+Definition E_CHUNK_SIGNATURE : N := 2.  (* Invalid { name: "chunk signature" } *)
+Definition E_CHUNK_OUTPUT : N := 3.     (* Invalid { name: "compressed chunk", expected: "at most 4096 decompressed bytes" } *)
+Definition E_COPY_OFFSET : N := 4.      (* Invalid { name: "copy token offset" } *)
+
+(* read_u16(s.get(i..i + 2).ok_or_else(truncated_stream)?) *)
 Definition read_u16 (s : list N) : outcome N :=
   match s with
   | a :: b :: _ => Ok (a + 256 * b)
-  | _ => Panic
+  | _ => Err E_TRUNCATED
   end.
 
 (* (4..16).find(|i| POWER_2[*i] >= decomp_len); POWER_2[i] = 1 << i *)
@@ -90,23 +98,33 @@ Definition copy_tail (len offset : N) (res : vec) : outcome vec :=
 (* state of the flag-byte loop: &s[i..], res, chunk_len *)
 Record cstate := mkst { st_in : list N; st_res : vec; st_clen : N }.
 
-(* res.push(s[i]); i += 1; chunk_len += 1; *)
-Definition do_literal (st : cstate) : outcome cstate :=
-  match st_in st with
-  | [] => Panic                                     (* s[i] *)
-  | b :: s' => Ok (mkst s' (vec_push (st_res st) b) (st_clen st + 1))
-  end.
+Definition CHUNK : N := 4096.
 
-(* let token = read_u16(&s[i..]); i += 2; chunk_len += 2;
-   let decomp_len = res.len() - start; …fields…; …copy… *)
+(* if res.len() - start >= 4096 { return Err(..) }
+   res.push( *s.get(i).ok_or_else(truncated_stream)?); i += 1; chunk_len += 1; *)
+Definition do_literal (start : N) (st : cstate) : outcome cstate :=
+  if CHUNK <=? v_len (st_res st) - start then Err E_CHUNK_OUTPUT
+  else
+    match st_in st with
+    | [] => Err E_TRUNCATED
+    | b :: s' => Ok (mkst s' (vec_push (st_res st) b) (st_clen st + 1))
+    end.
+
+(* let token = read_u16(s.get(i..i + 2).ok_or_else(truncated_stream)?); i += 2; chunk_len += 2;
+   let decomp_len = res.len() - start; …bit_count (unwrap), len…;
+   if decomp_len + len > 4096 { return Err(..) }   …offset…;
+   if offset > res.len() { return Err(..) }        …copy… *)
 Definition do_copy (start : N) (st : cstate) : outcome cstate :=
   do token <- read_u16 (st_in st);
   let s' := skipn 2 (st_in st) in
   let decomp_len := v_len (st_res st) - start in
   do (len, offset) <- copy_token_fields decomp_len token;
-  do (len', res1) <- copy_loop (N.to_nat len) len offset (st_res st);
-  do res2 <- copy_tail len' offset res1;
-  Ok (mkst s' res2 (st_clen st + 2)).
+  if CHUNK <? decomp_len + len then Err E_CHUNK_OUTPUT
+  else if v_len (st_res st) <? offset then Err E_COPY_OFFSET
+  else
+    do (len', res1) <- copy_loop (N.to_nat len) len offset (st_res st);
+    do res2 <- copy_tail len' offset res1;
+    Ok (mkst s' res2 (st_clen st + 2)).
 
 (* for bit_index in 0..8 { if chunk_len > chunk_size { break 'chunk; } …token… }
    result: (true, st) = left by [break 'chunk]; (false, st) = the for loop ran to its end *)
@@ -118,7 +136,7 @@ Fixpoint token_loop (n : nat) (bit_index bit_flags chunk_size start : N) (st : c
     if chunk_size <? st_clen st then Ok (true, st)
     else
       do st' <- (if N.land bit_flags (N.shiftl 1 bit_index) =? 0
-                 then do_literal st else do_copy start st);
+                 then do_literal start st else do_copy start st);
       token_loop n' (bit_index + 1) bit_flags chunk_size start st'
   end.
 
@@ -141,8 +159,6 @@ Fixpoint chunk_loop (fuel : nat) (chunk_size start : N) (st : cstate) : outcome 
     end
   end.
 
-Definition CHUNK : N := 4096.
-
 (* while i < s.len() { header; raw or compressed chunk } *)
 Fixpoint chunks_loop (fuel : nat) (s : list N) (res : vec) : outcome vec :=
   match fuel with
@@ -157,10 +173,10 @@ Fixpoint chunks_loop (fuel : nat) (s : list N) (res : vec) : outcome vec :=
       let chunk_size := N.land chunk_header 0x0FFF in
       let chunk_signature := N.shiftr (N.land chunk_header 0x7000) 12 in
       let chunk_flag := N.shiftr (N.land chunk_header 0x8000) 15 in
-      if negb (chunk_signature =? 3) then Panic               (* assert_eq! *)
+      if negb (chunk_signature =? 3) then Err E_CHUNK_SIGNATURE
       else if chunk_flag =? 0 then
-        let blk := firstn (N.to_nat CHUNK) s1 in              (* &s[i..i + 4096] *)
-        if N.of_nat (length blk) <? CHUNK then Panic
+        let blk := firstn (N.to_nat CHUNK) s1 in              (* s.get(i..i + 4096) *)
+        if N.of_nat (length blk) <? CHUNK then Err E_TRUNCATED
         else chunks_loop f (skipn (N.to_nat CHUNK) s1) (vec_extend_rev res (rev_append blk []))
       else
         do st <- chunk_loop f chunk_size start (mkst s1 res 0);
@@ -168,17 +184,44 @@ Fixpoint chunks_loop (fuel : nat) (s : list N) (res : vec) : outcome vec :=
     end
   end.
 
-(* Err 0 = CfbError::Invalid { name: "signature", .. } *)
 Definition decompress_fuel (fuel : nat) (s : list N) : outcome (list N) :=
   match s with
-  | [] => Panic                                              (* s[0] *)
+  | [] => Err E_TRUNCATED                                    (* s.first().ok_or_else(..)? *)
   | sig :: s' =>
-    if negb (sig =? 1) then Err 0
+    if negb (sig =? 1) then Err E_SIGNATURE
     else do res <- chunks_loop fuel s' vec_empty; Ok (vec_to_list res)
   end.
 
 (* every loop iteration consumes input, so the input length bounds the iterations *)
 Definition decompress (s : list N) : outcome (list N) := decompress_fuel (length s) s.
+
+(* the number of chunk headers the outer loop processes (for the bound on the output length):
+   the same walk as [chunks_loop], counting *)
+Fixpoint chunks_count (fuel : nat) (s : list N) (res : vec) : nat :=
+  match fuel with
+  | O => O
+  | S f =>
+    match s with
+    | [] => O
+    | _ :: _ =>
+      match read_u16 s with
+      | Ok chunk_header =>
+        let s1 := skipn 2 s in
+        if negb (N.shiftr (N.land chunk_header 0x7000) 12 =? 3) then O
+        else if N.shiftr (N.land chunk_header 0x8000) 15 =? 0 then
+          let blk := firstn (N.to_nat CHUNK) s1 in
+          if N.of_nat (length blk) <? CHUNK then O
+          else S (chunks_count f (skipn (N.to_nat CHUNK) s1) (vec_extend_rev res (rev_append blk [])))
+        else
+          match chunk_loop f (N.land chunk_header 0x0FFF) (v_len res) (mkst s1 res 0) with
+          | Ok st => S (chunks_count f (st_in st) (st_res st))
+          | _ => O
+          end
+      | _ => O
+      end
+    end
+  end.
+Definition n_chunks (s : list N) : nat := chunks_count (length s) (tl s) vec_empty.
 
 (* ------------------------------------------------------------------------------------------ *)
 (* S — tokens, chunks, meaning, validity (MS-OVBA 2.4.1)                                        *)
@@ -298,8 +341,8 @@ Definition valid_chunk (c : chunk) : Prop := valid_chunkb c = true.
    repair of the flag-byte-boundary defect (commit 01a1da3) *)
 Definition known_C18 (cs : list chunk) : option N := None.
 
-(* vba.rs, VbaProject::from_cfb: decompress_stream(&s[m.text_offset..]) — the slice panics when
-   the recorded offset is past the end of the module stream *)
+(* vba.rs, VbaProject::from_cfb: s.get(m.text_offset..).ok_or_else(..)? then decompress_stream:
+   an offset recorded past the end of the module stream is an error *)
 Definition module_content (stream : list N) (text_offset : N) : outcome (list N) :=
-  if N.of_nat (length stream) <? text_offset then Panic
+  if N.of_nat (length stream) <? text_offset then Err E_TRUNCATED
   else decompress (skipn (N.to_nat text_offset) stream).
